@@ -1,6 +1,7 @@
 package main
 
 import (
+	"context"
 	"encoding/json"
 	"fmt"
 	"math/rand"
@@ -11,11 +12,15 @@ import (
 	"strconv"
 	"strings"
 
+	"github.com/jensneuse/abstractlogger"
+
+	"github.com/wundergraph/graphql-go-tools/execution/engine"
 	"github.com/wundergraph/graphql-go-tools/execution/graphql"
 	"github.com/wundergraph/graphql-go-tools/v2/pkg/ast"
 	"github.com/wundergraph/graphql-go-tools/v2/pkg/astnormalization"
 	"github.com/wundergraph/graphql-go-tools/v2/pkg/astparser"
 	"github.com/wundergraph/graphql-go-tools/v2/pkg/asttransform"
+	"github.com/wundergraph/graphql-go-tools/v2/pkg/engine/resolve"
 	"github.com/wundergraph/graphql-go-tools/v2/pkg/operationreport"
 	"github.com/wundergraph/graphql-go-tools/v2/pkg/variablesvalidation"
 )
@@ -936,6 +941,39 @@ func c06Pipeline(sdl, op string, vars []byte) (accepted bool, stage string, msg 
 	return true, "", "", nil
 }
 
+// the same request through ExecutionEngine.Execute, raw and after the caller has normalized it itself: whether the
+// variables are judged must not depend on who normalized
+func c06EngineVerdict(sdl, op string, vars []byte, prenormalize bool) (variablesRejected bool, msg string) {
+	defer func() {
+		if p := recover(); p != nil {
+			variablesRejected, msg = false, fmt.Sprintf("PANIC: %v", p)
+		}
+	}()
+	schema, err := graphql.NewSchemaFromString(sdl)
+	if err != nil {
+		return false, "schema: " + err.Error()
+	}
+	ctx, cancel := context.WithCancel(context.Background())
+	defer cancel()
+	eng, err := engine.NewExecutionEngine(ctx, abstractlogger.Noop{}, engine.NewConfiguration(schema), resolve.ResolverOptions{MaxConcurrency: 4})
+	if err != nil {
+		return false, "engine: " + err.Error()
+	}
+	req := &graphql.Request{Query: op, Variables: vars, OperationName: "Q"}
+	if prenormalize {
+		if res, err := req.Normalize(schema); err != nil || !res.Successful {
+			return false, "normalize"
+		}
+	}
+	w := graphql.NewEngineResultWriter()
+	err = eng.Execute(ctx, req, &w)
+	if err == nil {
+		return false, ""
+	}
+	m := err.Error()
+	return strings.HasPrefix(m, "Variable \"$") && (strings.Contains(m, "got invalid value") || strings.Contains(m, "was not provided")), m
+}
+
 func c06CheckPipeline(run *Run, r *rand.Rand) {
 	s := c06GenSchema(r)
 	names := []string{}
@@ -1021,6 +1059,15 @@ func c06CheckPipeline(run *Run, r *rand.Rand) {
 		key = "P" + string(vb) + op + sdl
 	}
 	run.Count(key, fs...)
+	if r.Intn(10) == 0 && (stage == "" || stage == "variables") {
+		rawRej, rawMsg := c06EngineVerdict(sdl, op, vb, false)
+		preRej, preMsg := c06EngineVerdict(sdl, op, vb, true)
+		if !strings.HasPrefix(rawMsg, "PANIC") && !strings.HasPrefix(preMsg, "PANIC") && preMsg != "normalize" && rawRej != preRej {
+			run.Violate(Violation{Kind: "oracle", Clause: "verdict_independent_of_who_normalized", Input: in, Impl: map[string]any{"raw": rawMsg, "prenormalized": preMsg},
+				Detail: fmt.Sprintf("Execute on the raw request: variables rejected=%v (%s); on the request the caller normalized first: rejected=%v (%s)", rawRej, truncate(rawMsg, 200), preRej, truncate(preMsg, 200))}, "")
+		}
+		run.Feat("engine_raw_vs_prenormalized")
+	}
 	switch {
 	case strict && !acc:
 		known := ""
